@@ -291,7 +291,15 @@ def decide(spec, group, tier, seed, replay=None):
                     o2 = iout_th[i] if i < len(iout_th) else 'err no-output'
                     if icanon: o2 = icanon(o2, l)
                     if canon(o2) != canon(impl_out.get(i, '')) and not known_match(known, pid, l):
-                        thread_fails.append({'line': l, 'main_thread': impl_out.get(i, ''), 'second_thread': o2})
+                        # does the line alone, as the first request of a second thread, already differ?  otherwise keep the (minimised)
+                        # preceding lines: the difference needs something an earlier thread of the process did
+                        tcmd = ['env', 'EPSIC_HARNESS_THREAD=1'] + list(hcmd); seq = []
+                        a1 = core.run_lines(tcmd, [l])[0]
+                        if icanon: a1 = icanon(a1, l)
+                        if canon(a1) == canon(impl_out.get(i, '')):
+                            want = canon(impl_out.get(i, ''))
+                            seq = minimise_sequence(tcmd, lines[:i], l, icanon=icanon, differs=lambda r, want=want: r != want) or []
+                        thread_fails.append({'line': l, 'main_thread': impl_out.get(i, ''), 'second_thread': o2, 'sequence': seq})
                         orc_fails.append((i, 'the answer depends on the calling thread: on the main thread %s, on a second thread %s' % (impl_out.get(i, '')[:120], o2[:120])))
                         if len(thread_fails) >= 3: break
                 notes.append('thread pass: %d lines re-run each on a thread of its own in %.1fs, %d differ' % (len(lines), time.time() - t0, len(thread_fails)))
@@ -353,7 +361,11 @@ def decide(spec, group, tier, seed, replay=None):
             e1, _, _ = core.build_harness(scr, group['name'], group['sources'], group.get('repo_sources', ()), group.get('flags', ()), group.get('libs', ('-lgmpxx', '-lgmp')))
             if e1:
                 nl = [x['line'] for x in rj['thread_dependence']]; icanon = spec.get('impl_canon')
-                o1, o2 = core.run_lines([e1], nl), core.run_lines([e1], nl, env={'EPSIC_HARNESS_THREAD': '1'})
+                o1 = core.run_lines([e1], nl); o2 = []
+                for x in rj['thread_dependence']:
+                    sq = list(x.get('sequence') or [])
+                    r = core.run_lines([e1], sq + [x['line']], env={'EPSIC_HARNESS_THREAD': '1'})
+                    o2.append(r[len(sq)] if len(r) > len(sq) else 'err no-output')
                 for l, a, b in zip(nl, o1, o2):
                     if icanon: a, b = icanon(a, l), icanon(b, l)
                     if canon(a) != canon(b):
